@@ -411,8 +411,27 @@ def check_C20(tier, rng, jobs):
 
 
 def _fs_mc(pid, tier):
-    """model checking side of the system-call level properties (CacacheFS.tla)"""
-    return []
+    """model checking side of the system-call level properties (CacacheFS.tla via MC_FS.tla)"""
+    q = tier == QUICK
+    wd = os.path.join(WORK, pid, "mc_fs")
+    runs = []
+    w, to = (8, 900) if q else (14, 3000)
+    if pid in ("C03", "C04"):
+        cfg = M.fs_cfg(os.path.join(wd, "crash.cfg"), 2 if q else 3, "MCOpsNoRH", 2 if q else 3, True, 0,
+                       ["ContentAtomic", "NoPartialRecord", "Resolvable", "CrashAtomic", "TmpPrivate"])
+        runs.append(M.check_model("MC_FS", cfg, wd, workers=w, timeout=to))
+    if pid == "C07":
+        cfg = M.fs_cfg(os.path.join(wd, "conc.cfg"), 2 if q else 3, "MCOpsAll", 2 if q else 3, False, 0,
+                       ["ContentAtomic", "NoPartialRecord", "TmpPrivate", "Serializable"])
+        runs.append(M.check_model("MC_FS", cfg, wd, workers=w, timeout=to))
+    if pid == "C13":
+        cfg = M.fs_cfg(os.path.join(wd, "fault.cfg"), 2 if q else 3, "MCOpsNoRH", 2 if q else 3, False, 1 if q else 2,
+                       ["ContentAtomic", "Resolvable", "Truthful", "TmpPrivate"])
+        runs.append(M.check_model("MC_FS", cfg, wd, workers=w, timeout=to))
+    if pid == "C20" and not q:
+        cfg = M.fs_cfg(os.path.join(wd, "live.cfg"), 2, "MCOpsWrite", 2, False, 1, [], ["Terminates"], fair=True)
+        runs.append(M.check_model("MC_FS", cfg, wd, workers=w, timeout=to))
+    return runs
 
 
 def check_C03(tier, rng, jobs):
